@@ -256,13 +256,16 @@ class Explorer:
         def content_of(path, kind):
             try:
                 with open(path, "rb") as f:
-                    txt = f.read().decode("utf-8", "replace")
+                    raw_bytes = f.read()
+                txt = raw_bytes.decode("utf-8", "replace")
             except OSError:
                 return []
             if kind == "pidref":
                 return [self.inst.cid_rev.get(txt, "junk")]
             if kind == "doc":
                 return [self.inst.ver_rev.get(hashlib.sha256(txt.encode("utf-8")).hexdigest(), "junk")]
+            if kind == "obj":
+                return [self.inst.content_rev.get(hashlib.sha256(raw_bytes).hexdigest(), "junk")]
             lines = txt.split("\n")
             if lines and lines[-1] == "":
                 lines = lines[:-1]
@@ -273,7 +276,7 @@ class Explorer:
             if record and t is not None:
                 e = {"t": t.tid, "op": op, "tok": token, "out": out}
                 if op in ("open:r", "open:rw") and out == "ok" and token and \
-                        token[0][0] in ("pidref", "cidref", "doc"):
+                        token[0][0] in ("pidref", "cidref", "doc", "obj"):
                     e["val"] = content_of(paths[0], token[0][0])
                 raw.append(e)
             if t is not None:
